@@ -49,6 +49,38 @@ PROPS = {
                    'known_findings.json.',
         technique='lemmas over machine-checked functional contracts of the real code (z3/cvc5); bounded run-time '
                   'contracts for sums and subclasses'),
+    'C11': dict(
+        title='Pure circuits evaluate to the unitary they describe',
+        level='proof',
+        vc=[], sym=['C11'], rtc='C11',
+        level_text='Proof (per generator, for all real phases): the real gate code (Rx/Ry/Rz/CU1/CRz/CRx.array, the GATES '
+                   'table, Controlled.__init__, Ket/Bra/Digits.array, Scalar, every dagger method, evaluation through '
+                   'the real tensor functor, rewire on <= 3/4 qubits) is executed on a symbolic phase; the result is '
+                   'normalised into Q(i)[c,s,sqrt2]/(c^2+s^2-1) and compared entrywise with the tket matrices written '
+                   'independently in contracts/spec_quantum.py; matrix, unitarity and dagger identities are discharged '
+                   'by z3 (NRA) for every phase. Whole circuits: symbolic samples + the bounded stand-in against an '
+                   'independent numpy simulator; the general statement rests on C09.',
+        level_note='Trusted: sympy normalisation (rewrite/expand_trig), z3; floats read as the constants they '
+                   'approximate (T4); "does not branch on the phase" (Parametrized.modules only). rewire is decided for '
+                   'n <= 3 (thorough 4) qubits only: bounded in n, symbolic in the phase.',
+        technique='symbolic execution of the real code on a symbolic phase + polynomial identities discharged by z3; '
+                  'bounded comparison with an independent simulator'),
+    'C16': dict(
+        title='Circuits translate to ZX diagrams denoting the same linear map',
+        level='proof',
+        vc=[], sym=['C16'], rtc=None,
+        level_text='Proof (per generator, for all real phases and all bitstrings up to length 3): the real gate2zx is run '
+                   'on every gate of the statement with a symbolic phase; the returned ZX diagram is interpreted by an '
+                   'independent exact interpreter (spiders, H, swap, scalar; phases in full turns) and shown proportional '
+                   'to the standard matrix with a nowhere-vanishing factor (all 2x2 minors vanish identically and the '
+                   'entries have no common zero on the circle), by z3. Spider / H / scalar / swap daggers denote '
+                   'conjugate transposes for all phases and 0-2 (thorough 0-3) legs. Lifting to whole circuits is by '
+                   'functoriality (C04) and is sampled symbolically.',
+        level_note='Trusted: sympy normalisation, z3, the 60-line interpreter symrun/interp.py, spec_quantum.py; L-net. '
+                   'Spiders with more than 3 legs each side and circuits beyond the samples follow by the per-wire / '
+                   'functorial lemmas (assumed).',
+        technique='symbolic execution of the real translation + exact ZX interpretation + proportionality identities '
+                  'discharged by z3'),
     'C05': dict(
         title='Interchange moves exactly one box past a disconnected neighbour',
         level='proof',
@@ -71,7 +103,7 @@ PROPS = {
 
 NOT_APPLICABLE = {}
 SOURCE_COMMITS = []
-FIX_COMMITS = ['16b45ce fix: refuse out-of-range offsets in the type scan of monoidal.Diagram.__init__']
+FIX_COMMITS = ['da35a0f fix: Y gate', 'e208434 fix: Ry', '1d0097a fix: Controlled of a daggered gate', '305ef6b fix: gate2zx controlled rotations', '16b45ce fix: refuse out-of-range offsets in the type scan of monoidal.Diagram.__init__']
 
 
 def claimed():
